@@ -20,7 +20,7 @@ VERIF = os.path.dirname(HERE)
 sys.path.insert(0, HERE)
 warnings.filterwarnings("ignore", category=SyntaxWarning)
 
-from gbv import core, lean, known  # noqa: E402
+from gbv import core, lean, known, shrink  # noqa: E402
 
 
 def main():
@@ -95,6 +95,14 @@ def main():
             lines.append(f"KNOWN-FINDING: property={pid} {text}")
     os.makedirs(os.path.join(VERIF, "replays"), exist_ok=True)
     nviol = 0
+    if new_violations and os.environ.get("VERIF_NO_SHRINK") != "1":
+        # reduce the first failing case (drop shells / primitives / segments, simplify numbers) while it still fails
+        try:
+            run2 = core.Run(pid, tier, seed)
+            new_violations[0] = dict(new_violations[0], replay=shrink.shrink(run2, mod, new_violations[0]))
+            run2.close()
+        except Exception:
+            pass
     for k, v in enumerate(new_violations[:5]):
         path = os.path.join(VERIF, "replays", f"{pid}-{tier}-{seed}-{k}.json")
         with open(path, "w") as fh:
